@@ -267,6 +267,9 @@ func (sc SimpleColumn) WriteTo(store ReadOnlyFactStore, w io.Writer) error {
 		return ErrTooManyPreds
 	}
 	if sc.Deterministic {
+		// Sort a copy: ListPredicates may hand out the store's own slice
+		// (SimpleColumnStore does), which must not be reordered.
+		preds = append([]ast.PredicateSym(nil), preds...)
 		sort.Slice(preds, func(i, j int) bool {
 			a := preds[i]
 			b := preds[j]
